@@ -6,8 +6,8 @@ import docgen as D
 
 MODEL_TARGETS = ["model/Parse.vo", "model/SchemaJson.vo", "model/CanonicalForm.vo", "model/Freeze.vo"]
 COQ_TARGETS = ["props/C19.vo"]
-THEOREMS = [("C19", ["C19_parse_total", "C19_fp_total", "C19_json_total", "C19_freeze_total", "C19_freeze_keys", "C19_use_safe", "C19_cyclecheck_linear"])]
-PROOF_FILES = ["proofs/SchemaTextProofs.v", "proofs/SchemaTotalProofs.v", "props/C19.v", "proofs/SerSafetyProofs.v", "proofs/DeSafetyProofs.v"]
+THEOREMS = [("C19", ["C19_parse_total", "C19_fp_total", "C19_json_total", "C19_freeze_total", "C19_freeze_keys", "C19_use_safe", "C19_cyclecheck_linear", "C19_json_text_total", "C19_parse_text_total"])]
+PROOF_FILES = ["proofs/SchemaTextProofs.v", "proofs/SchemaTotalProofs.v", "proofs/JsonReadProofs.v", "proofs/JsonReadSchema.v", "proofs/JsonReadTotal.v", "props/C19.v", "proofs/SerSafetyProofs.v", "proofs/DeSafetyProofs.v"]
 TRUSTED_BASE = [
     "Coq 8.16.1 kernel; no axioms (Print Assumptions: closed)",
     "hand-written models Parse.v (raw.rs + parsing/mod.rs + check_for_cycles.rs), CanonicalForm.v, SchemaJson.v (serialize.rs), Freeze.v/Schema.v (self_referential.rs) tied by the correspondence run",
